@@ -970,16 +970,18 @@ func mkR(name string, sc rscen, qb, tb int, w float64) d1x.Scenario {
 func scenarios() []d1x.Scenario {
 	E, V := true, false
 	_ = V
+	// Bounds and weights follow the measured sizes (unsharded): r3-value has 1.9k / 51k / >450k
+	// executions at bound 1 / 2 / 3, the two-reader scenarios 5-13k at bound 2.
 	return []d1x.Scenario{
-		mkR("r3-value", rscen{rkeys: []int{0, 0, 0}}, 2, 3, 5),
-		mkR("r3-err-value", rscen{rkeys: []int{0, 0, 0}, turns: [][]bool{{E}}}, 2, 3, 6),
+		mkR("r3-value", rscen{rkeys: []int{0, 0, 0}}, 1, 3, 8),
+		mkR("r3-err-value", rscen{rkeys: []int{0, 0, 0}, turns: [][]bool{{E}}}, 1, 2, 1),
 		mkR("r3-err-err-value", rscen{rkeys: []int{0, 0, 0}, turns: [][]bool{{E, E}}}, 1, 2, 1),
 		mkR("r3-all-error", rscen{rkeys: []int{0, 0, 0}, turns: [][]bool{{E, E, E}}}, 1, 2, 1),
-		mkR("r2-evictfile", rscen{rkeys: []int{0, 0}, mut: "evict"}, 2, 3, 1),
-		mkR("r2-delete", rscen{rkeys: []int{0, 0}, mut: "delete"}, 2, 3, 1),
-		mkR("r2-err-evictfile", rscen{rkeys: []int{0, 0}, turns: [][]bool{{E}}, mut: "evict"}, 2, 3, 1),
-		mkR("r2-set", rscen{rkeys: []int{0, 0}, mut: "set"}, 2, 3, 1),
-		mkR("two-keys", rscen{rkeys: []int{0, 1, 0}, turns: [][]bool{{E}, nil}}, 1, 2, 1),
+		mkR("r2-evictfile", rscen{rkeys: []int{0, 0}, mut: "evict"}, 2, 3, 2),
+		mkR("r2-delete", rscen{rkeys: []int{0, 0}, mut: "delete"}, 2, 3, 2),
+		mkR("r2-err-evictfile", rscen{rkeys: []int{0, 0}, turns: [][]bool{{E}}, mut: "evict"}, 2, 3, 2),
+		mkR("r2-set", rscen{rkeys: []int{0, 0}, mut: "set"}, 2, 3, 2),
+		mkR("two-keys", rscen{rkeys: []int{0, 1, 0}, turns: [][]bool{{E}, nil}}, 1, 2, 2),
 	}
 }
 
